@@ -144,12 +144,16 @@ def run_pair(mods, c1, c2, sched, patience=1):
     return results, drift, coop.trace
 
 
+import multiprocessing as _mp
+STALLS = _mp.Value('i', 0)        # confirmed stalls over all worker processes (inherited through fork): three are evidence enough
+
+
 def _replay_schedules(items):
     mods = impl.load()
     out = []
     stalls = 0
     for tid, c1, c2, sched in items:
-        if stalls >= 1:
+        if stalls >= 1 or STALLS.value >= 3:
             # a stalled schedule leaves blocked threads behind and costs a minute (it is re-run with long waits before it counts): one per chunk is evidence enough
             out.append((tid, [], 0, 0))
             continue
@@ -159,6 +163,8 @@ def _replay_schedules(items):
             results, drift, trace = run_pair(mods, c1, c2, sched, patience=5)
         if results.get('stalled'):
             stalls += 1
+            with STALLS.get_lock():
+                STALLS.value += 1
         sigs = []
         if results.get('stalled'):
             sigs.append({'impl': 'py', 'what': 'interleaved: scheduler stalled (a thread did not return to a checkpoint of its own query: it ran into the other query\'s iterator / writer, or blocked)'})
